@@ -35,13 +35,27 @@ struct Res {
 /// Element class of the independent parser at `pos` (for signatures): "ECS", "trailing", "IDAT"…
 fn elem_at(p: &Option<fmt::Parsed>, pos: usize) -> String {
     match p {
-        Some(p) => p.elems.iter().find(|e| e.start <= pos && pos < e.start + e.len).map(|e| if e.is_c2pa { "c2pa-container".to_string() } else { e.kind.chars().filter(|c| !c.is_ascii_digit()).collect() }).unwrap_or_else(|| "unparsed".into()),
+        Some(p) => p
+            .elems
+            .iter()
+            .find(|e| e.start <= pos && pos < e.start + e.len)
+            .map(|e| {
+                let k = &e.kind;
+                if e.is_c2pa {
+                    "c2pa-container".to_string()
+                } else if p.family == "jpeg" && k.len() == 3 && k.starts_with('M') && k[1..].chars().all(|c| c.is_ascii_hexdigit()) {
+                    "unknown-marker".to_string()
+                } else {
+                    k.chars().filter(|c| !c.is_ascii_digit()).collect()
+                }
+            })
+            .unwrap_or_else(|| "unparsed".into()),
         None => "unparsed".into(),
     }
 }
 
 fn name_class(names: &[String]) -> String {
-    names.first().map(|n| n.chars().filter(|c| !c.is_ascii_digit()).collect::<String>()).unwrap_or_else(|| "?".into())
+    names.first().map(|n| if n == "C2PA" { n.clone() } else { n.chars().filter(|c| !c.is_ascii_digit()).collect::<String>() }).unwrap_or_else(|| "?".into())
 }
 
 fn run_item(it: &Item) -> Res {
@@ -117,7 +131,10 @@ fn run_item(it: &Item) -> Res {
                         bad = true;
                         break;
                     }
-                    r.violations.push((format!("{fam}|uncovered|{}", elem_at(&parsed, gs as usize)), format!("{}: bytes {gs}..{ge} of {n} belong to no entry and are not part of the manifest container (independent parser: {})", it.variant, elem_at(&parsed, gs as usize))));
+                    let gap = &it.bytes[gs as usize..ge as usize];
+                    let at_elem_start = parsed.as_ref().map(|p| p.elems.iter().any(|e| e.start == gs as usize)).unwrap_or(false);
+                    let cls = if fam == "jpeg" && at_elem_start && gap.iter().all(|b| *b == 0xFF) { "fill-bytes-before-marker".to_string() } else { elem_at(&parsed, gs as usize) };
+                    r.violations.push((format!("{fam}|uncovered|{cls}"), format!("{}: bytes {gs}..{ge} of {n} belong to no entry and are not part of the manifest container (independent parser: {})", it.variant, elem_at(&parsed, gs as usize))));
                     bad = true;
                     break;
                 }
@@ -246,7 +263,11 @@ fn mutants(a: &Item, rng: &mut Rng, per_kind: usize) -> Vec<Item> {
                 }
                 // 0xFF 0x00 and RST inside the entropy data
                 if let Some(e) = el.iter().find(|e| e.kind == "ECS") {
-                    let at = e.start + rng.usize(e.len.max(1));
+                    let mut at = e.start + rng.usize(e.len.max(1));
+                    // never split an existing FF xx pair
+                    while at > e.start && a.bytes[at - 1] == 0xFF {
+                        at -= 1;
+                    }
                     let mut b = a.bytes[..at].to_vec();
                     b.extend_from_slice(&[0xFF, 0x00, 0xFF, 0xD3, 0x11]);
                     b.extend_from_slice(&a.bytes[at..]);
@@ -337,6 +358,18 @@ fn main() {
     let mut base: Vec<Asset> = kit::extended_tiny_assets().into_iter().filter(|a| boxhash(a.format)).collect();
     let mut add = |name: &str, format: &'static str, bytes: Vec<u8>| base.push(Asset { name: name.to_string(), format, bytes });
     add("tiny_rst.jpg", "jpg", assets::tiny_jpeg(None, true, &[]));
+    // directed: a reserved JPGn marker segment (FF F7 + length) and an APP11 segment too short to be JUMBF
+    {
+        let b = assets::tiny_jpeg(None, false, &[]);
+        let mut v = b[..20].to_vec();
+        v.extend_from_slice(&[0xFF, 0xF7, 0, 6, 1, 2, 3, 4]);
+        v.extend_from_slice(&b[20..]);
+        add("tiny_reserved_marker.jpg", "jpg", v);
+        let mut v = b[..20].to_vec();
+        v.extend_from_slice(&[0xFF, 0xEB, 0, 10, b'J', b'P', 0, 9, 0, 0, 0, 1]);
+        v.extend_from_slice(&b[20..]);
+        add("tiny_short_app11.jpg", "jpg", v);
+    }
     add("tiny_rst_trailing.jpg", "jpg", assets::tiny_jpeg(None, true, b"\0\0after-eoi"));
     add("tiny_text_trailing.png", "png", assets::tiny_png(true, b"trailing after IEND"));
     add("tiny_rich_trailing.gif", "gif", kit::rich_gif(false, b"trailing"));
@@ -376,6 +409,22 @@ fn main() {
         for (k, m) in with_manifest.iter().enumerate() {
             if k < 2 && a.bytes.len() < 300_000 {
                 items.extend(mutants(m, &mut rng, (per_kind / 2).max(1)));
+            }
+        }
+        // directed: a foreign segment between the two APP11 segments of a two-packet C2PA box
+        if a.name == "tiny.jpg" {
+            for m in with_manifest.iter() {
+                if let Ok(p) = fmt::parse("jpg", &m.bytes) {
+                    let segs: Vec<&fmt::Elem> = p.elems.iter().filter(|e| e.is_c2pa).collect();
+                    if segs.len() == 2 {
+                        let at = segs[1].start;
+                        let mut b = m.bytes[..at].to_vec();
+                        b.extend_from_slice(&[0xFF, 0xFE, 0, 8, b'b', b'e', b't', b'w', b'e', b'n']);
+                        b.extend_from_slice(&m.bytes[at..]);
+                        items.push(Item { name: "tiny_c2pa_packets_interleaved.jpg".into(), format: "jpg", variant: "manifest:interleaved".into(), bytes: b });
+                        break;
+                    }
+                }
             }
         }
         items.extend(with_manifest);
